@@ -12,736 +12,625 @@ Definition show_fres (r : fres) : string :=
   end.
 Definition check (rs : list rune) : string := digest (show_fres (format_res rs)).
 Definition full (rs : list rune) : string := show_fres (format_res rs).
-Eval vm_compute in ("<<<M1343>>>" ++ check (runes_of_ascii "// top
-options
-    // c0
-{ // c1a
-  // c1b
-LittleEndian
-    // c2
-= // c3a
-  // c3b
-false
-    // c4
-; ArrayPrefixLenType = // c7a
-  // c7b
-u8
-    // c8
-; // c9
-FixedStringPadFromLeft // c10a
-  // c10b
-= // c11
-true ; // c13
-FixedStringPadChar
-    // c14
-= '0' // c16
-;
-    // c17
-} // c18
-packet
-    // c19
-Heartbeat {
-    // c21
-string lastPx , uint8 // c25
-Qty ,
-    // c27
-i64 // c28a
-  // c28b
-Acct
-    // c29
-,
-    // c30
-char[ // c31
-4 ] // c33
-Ref // c34
-, // c35
-} packet // c37
-Fill // c38
-{ // c39
-uint8 // c40a
-  // c40b
-Ref // c41
-, Heartbeat // c43
-, // c44a
-  // c44b
-f32 // c45
-OrderId , // c47
-repeat f32 // c49
-x
-    // c50
-, // c51a
-  // c51b
-} root packet Order
-    // c55
-{ // c56a
-  // c56b
-zchar[
-    // c57
-2 // c58
-] // c59a
-  // c59b
-OrderId ,
-    // c61
-zchar[ // c62a
-  // c62b
-2 ]
-    // c64
-Acct
-    // c65
-,
-    // c66
-zchar[ // c67
-1 ] // c69
-Note // c70a
-  // c70b
-,
-    // c71
-zchar[
-    // c72
-9 // c73
-] Qty // c75a
-  // c75b
-, // c76a
-  // c76b
-string price // c78
-, // c79
-string // c80a
-  // c80b
-tag7
-    // c81
-, // c82a
-  // c82b
-u32
-    // c83
-x
-    // c84
-, // c85a
-  // c85b
-match // c86
-x as // c88
-Body // c89
-{ // c90
-123 // c91
-: // c92a
-  // c92b
-Fill , // c94a
-  // c94b
-112 // c95a
-  // c95b
-: // c96a
-  // c96b
-Heartbeat , // c98
-} // c99
-, // c100
-u32 seqNo
-    // c102
-@calculatedFrom( // c103
-""CRC32"" // c104
-)
-    // c105
-,
-    // c106
-} // c107
-")).
-Eval vm_compute in ("<<<M1818>>>" ++ check (runes_of_ascii "packet o 
-// trailing space 
-//x
-		{  repeat
-
-    pack
-stringy
-
-    `two words`
-	,
-    char[ 1  ] leftPad
-	, } 
-  /// triple
-  	// @lengthOf(
-  MetaData msg_type {
-zchar[ 1  ]
-Pad`" ++ [28040; 24687; 31867; 22411]%N ++ runes_of_ascii "` ,
-uint32 	 //x
-
-	charz//
-		`a\` ,
-
-    A
-
-    u8x
-`// not a comment`
-
-    , 
+Eval vm_compute in ("<<<M271>>>" ++ check (runes_of_ascii "// packet A { u8 x, }
+packet string_ {
+@tag( 4294967296)
+@calculatedFrom( """ ++ [128512]%N ++ runes_of_ascii """ )@calculatedFrom( ""1"" )  leftPad @lengthOf( //	t
+int )  ``
 // `tick` ""quote"" 'q'
-  } packet options1 {@calculatedFrom(
-	""" ++ [233]%N ++ runes_of_ascii "t" ++ [233]%N ++ runes_of_ascii """
-)
-	@rightPad
-
-( ) Pad @lengthOf(// packet A { u8 x, }
-    pack)
-``,match  A as a1
-{
-255 : msg_type,}
+//
+, repeat Packet{ zchar[
+0
+    // packet A { u8 x, }
+    ]options1 `line1
+line2` , },
+    @calculatedFrom( """"	) float32
+    u8x
     ,
-	    // " ++ [27880; 37322]%N ++ runes_of_ascii "
-  //
-	@lengthOf( tag
-    )@tag(
-00 )@rightPad
+float , i64_
+{ packetx {  i16	falsey, f32 repeatCount
+    `{ , }`,} ,
+    repeat char[
+0  ] i8i8, string	o @lengthOf( options1 ) , } , i64_
+@calculatedFrom(""a\""b"" )
+/// triple
+//x
+`a\`  , @rightPad ( )@lengthOf( packetx
+    )
+match matchKey as stringy{ ""a	b"":
+body,}
+    ,
+    // " ++ [27880; 37322]%N ++ runes_of_ascii "
+    @lengthOf(
+u128
+) @calculatedFrom(
+    ""`tick`"" ) @rightPad
+    () // @lengthOf(
+repeat falsey
+string_ `" ++ [28040; 24687; 31867; 22411]%N ++ runes_of_ascii "`
+    ,string As`it's`
+    ,
+@calculatedFrom( """ ++ [28040; 24687]%N ++ runes_of_ascii """ ) repeat rootA { float64
+body	,
+} , } options {zchar
+=
+    // " ++ [128512]%N ++ runes_of_ascii " emoji
+    true  ;  i8i8= 3; } packet	leftPad{	@calculatedFrom(
+    // c
+    """" ) //x
+@leftPad( ' ' )
+@calculatedFrom(
+""abc"" ) repeat MetaDataX{  char[] Pad , body
+@lengthOf( Foo )
+/// triple
+/// triple
+,uint64 i8i8 ,char[ 42 ]options1
+@calculatedFrom( ""x y""
+),}
+,
+} packet stringy
+    /// triple
+    {	@calculatedFrom( """ ++ [28040; 24687]%N ++ runes_of_ascii """ )BodyLength	len
+    ,@lengthOf(
+u
+    ) i8i8
+metadata
+, @calculatedFrom(
+""a\\""
+) //x
+packetx
+    ,
+    f64 i8i8	@lengthOf( Header
+    )
+    , metadata
+`
+`,@lengthOf( int ) repeat falsey	,
+repeat char[]
+trueish
+,
+    }
+")).
+Eval vm_compute in ("<<<M387>>>" ++ check (runes_of_ascii "options {
+	StringPrefixLenType = u16;
+	ArrayPrefixLenType = u16;
+}
 
-    (  ' ' 
-) match
+packet SampleBinary {
+	uint16 MsgType `" ++ [28040; 24687; 31867; 22411]%N ++ runes_of_ascii "`,
+	u16 BodyLenght @lengthOf(Body) `" ++ [28040; 24687; 20307; 38271; 24230]%N ++ runes_of_ascii "`,
+	match MsgType as Body {
+		1 : Logon,
+		2 : Logout,
+		3 : Heartbeat,
+		4 : RiskControlRequest,
+		5 : RiskControlResponse,
+	},
+	@calculatedFrom(""CRC32"")
+	u32 Ckecksum `" ++ [26657; 39564; 21644]%N ++ runes_of_ascii "`,
+}
 
-Header 
-as
-f32a
-{"""":
-    float
-	,}  // @lengthOf(
-  ,  char[]T@calculatedFrom( 
-// packet A { u8 x, }
+packet Logon {
+	@leftPad('0')
+	char[10] UserName `" ++ [29992; 25143; 21517]%N ++ runes_of_ascii "`,
+	string Password `" ++ [23494; 30721]%N ++ runes_of_ascii "`,
+	uint64 ClientId `" ++ [23458; 25143; 31471]%N ++ runes_of_ascii "ID`,
+	u16 HeartbeatInterval `" ++ [24515; 36339; 38388; 38548]%N ++ runes_of_ascii "`,
+}
 
-""packet""  )
+packet Logout {
+	@rightPad('0')
+	char[10] UserName `" ++ [29992; 25143; 21517]%N ++ runes_of_ascii "`,
+	uint64 ClientId `" ++ [23458; 25143; 31471]%N ++ runes_of_ascii "ID`,
+}
 
-,repeat asx/// triple
-    	msg_type
-    `crlf
-line` , @calculatedFrom(""\" ++ [233]%N ++ runes_of_ascii """ )
-@tag( 	 // trailing space 
-	7
-	)
-	int64
+packet Heartbeat {
+}
 
-o`line1
-line2`
+packet RiskControlRequest {
+	string UniqueOrderId `" ++ [21807; 19968; 35746; 21333; 21495]%N ++ runes_of_ascii "`,
+	char[16] ClOrdID `" ++ [23458; 25143; 35746; 21333; 21495]%N ++ runes_of_ascii "`,
+	char[3] MarketID `" ++ [24066; 22330]%N ++ runes_of_ascii "id`,
+	char[12] SecurityID `" ++ [35777; 21048; 20195; 30721]%N ++ runes_of_ascii "`,
+	char Side `" ++ [20080; 21334; 26041; 21521]%N ++ runes_of_ascii "`,
+	char OrderType `" ++ [35746; 21333; 31867; 22411]%N ++ runes_of_ascii "`,
+	u64 Price `" ++ [20215; 26684]%N ++ runes_of_ascii "`,
+	u32 Qty `" ++ [25968; 37327]%N ++ runes_of_ascii "`,
+	repeat string ExtraInfo `" ++ [38468; 21152; 20449; 24687]%N ++ runes_of_ascii "`,
+	repeat SubOrder {
+		char[16] ClOrdID `" ++ [23376; 35746; 21333; 21495]%N ++ runes_of_ascii "`,
+		u64 Price `" ++ [23376; 35746; 21333; 20215; 26684]%N ++ runes_of_ascii "`,
+		u32 Qty `" ++ [23376; 35746; 21333; 25968; 37327]%N ++ runes_of_ascii "`,
+	},
+}
 
-    , 
-    // trailing space 
-	}// " ++ [128512]%N ++ runes_of_ascii " emoji
-    	root packet  // packet A { u8 x, }
-  crc  {
+packet RiskControlResponse {
+	string UniqueOrderId `" ++ [21807; 19968; 35746; 21333; 21495]%N ++ runes_of_ascii "`,
+	i32 Status `" ++ [29366; 24577]%N ++ runes_of_ascii "`,
+	string Msg `" ++ [32467; 26524; 20449; 24687]%N ++ runes_of_ascii "`,
+	repeat Detail,
+}
 
-int8
-body
-	@lengthOf( 
-matchKey )	`two words`
+packet Detail {
+	string RuleName `" ++ [35268; 21017; 21517; 31216]%N ++ runes_of_ascii "`,
+	u16 Code `" ++ [21407; 22240; 20195; 30721]%N ++ runes_of_ascii "`,
+}")).
+Eval vm_compute in ("<<<M13>>>" ++ check (runes_of_ascii "root
+    packet	roots{ // `tick` ""quote"" 'q'
+} options	{	asx =
+    ""\n"" ; x_y_z =
+3 ;rootA = ""CRC32""
+    ;float=char  T = false
+; }
+packet falsey {
+body { match u8x as /// triple
+string_{ [
+42,7 ,65535
+    ,
+    3 ,
+    42 ,7 , ""1""
+    , ""packet"" ]:
+    // `tick` ""quote"" 'q'
+    i64_ , [ ""abc""]
+    :  Foo ,	""a\\""
+    :
+roots ,
+    4294967296 :	stringy	}
+    , //x
+asx
+`{ , }` // " ++ [128512]%N ++ runes_of_ascii " emoji
+, i8
+charz@lengthOf( // trailing space 
+x_y_z)// trailing space 
+`a\` ,}
+    // @lengthOf(
+    , @tag( 65535 ) i64_ @lengthOf( tag )`u8 x,`
+// a // b
+//	t
+,Z9_@lengthOf( int )
+, @calculatedFrom( ""a\""b""
+)uint16  stringy @lengthOf( trueish ) , Logon	{string  Logon `say ""hi""` , packetx
+i64_ , match msg_type as	float
+{ ""\n"" : i64_,	[
+""" ++ [128512]%N ++ runes_of_ascii """
+    ]
+:
+metadata , // `tick` ""quote"" 'q'
+[
+// trailing space 
+// " ++ [128512]%N ++ runes_of_ascii " emoji
+10, ""1""  ]
+:zchar ,
+}
+    , //x
+}
+    //x
+    , Packet
+    @calculatedFrom(""CRC32"" ), }
+")).
+Eval vm_compute in ("<<<M1891>>>" ++ check (runes_of_ascii "packet
+	falsey 
+{ 	 // `tick` ""quote"" 'q'
+repeat
+charz 
+    /// triple
+	float	// a // b
+    `tab	here`  ,
+
+    char[]
+    stringy , Logon	f32a ,
+
+    char[]
+string_	/// triple
+	  ,int16  _x
+    ``,  match 	 /// triple
+crc as	stringy {""abc""
+: Pad	[ ""\n"" ,
+    10
+, 4294967296
+
+,  0123456789 ,""abc"" ,
+    """ ++ [28040; 24687]%N ++ runes_of_ascii """
+] :i8i8
+	, 10	: 
+//x
+  	Header
+    ,10 :// c
+	calculatedFrom
+,0123456789 :
+
+    charz 10 
+:	repeatCount}
+
 , 
-      //	t
-		@lengthOf(
+leftPad
+@lengthOf(
 	u8x
 
-)	zchar[ 0123456789]	i8i8 , }
-    MetaData  a1 {	falsey _x
-	`
-` ,
-char[] 
-body `" ++ [28040; 24687; 31867; 22411]%N ++ runes_of_ascii "` , 
-    // packet A { u8 x, }
-  //
-  zchar[42]
-
-trueish `
-`
-
-,  float
-    trueish, metadata 	 //x
-	o`{ , }`  ,	}
-
-")).
-Eval vm_compute in ("<<<M1461>>>" ++ check (runes_of_ascii "packet falsey {
-    i64_,
-    charz {
-        match Packet as Pad {
-            ""\n"" : Packet,
-            ""// no comment"" : f32a,
-            [3, 4294967296, 10, 7, 10] : u,
-            // trailing space 
-            ""`tick`"" : u8x,
-            [7, ""it's""] : Packet,
-            0 : len,
-        },
-    },/// triple
-    @lengthOf(f32a)
-    char[3] options1 @lengthOf(Pad),
-    zchar[0123456789] T ``,
-}
-
-packet Pad {
-    // c
-    o roots `{ , }`,
-}
-
-packet f32a {
-    _x @calculatedFrom(""x y""),
-    @tag(65535)
-    //	t
-    char pack @lengthOf(zchar),
-    repeat int64 falsey,
-    repeat len {
-        match A as rootA {
-            [42, ""\n""] : Z9_,
-        },
-        repeat i16 A,
-        repeat zchar[65535] tag `
-                `,
-        f64 float @lengthOf(f32a) ``,
-        // `tick` ""quote"" 'q'
-        // packet A { u8 x, }
-    },
-    x u8x,
-    @tag(42)
-    repeat As Packet,
-    @lengthOf(Pad)
-    repeat f64 rootA,// @lengthOf(
-}")).
-Eval vm_compute in ("<<<M1123>>>" ++ check (runes_of_ascii "// top
-options
-    // c0
-{
-    // c1
-uint8x
-    // c2
-=
-    // c3
-007
-    // c4
-;
-    // c5
-lengthOf
-    // c6
-=
-    // c7
-i8
-    // c8
-;
-    // c9
-}
-    // c10
-packet
-    // c11
-i64_
-    // c12
-{
-    // c13
-@calculatedFrom(
-    // c14
-""1""
-    // c15
-)
-    // c16
-@tag(
-    // c17
-3
-    // c18
-)
-    // c19
-@lengthOf(
-    // c20
-rootA
-    // c21
-)
-    // c22
-repeat
-    // c23
-int8
-    // c24
-Packet
-    // c25
-`u8 x,`
-    // c26
-,
-    // c27
-}
-    // c28
-root
-    // c29
-packet
-    // c30
-stringy
-    // c31
-{
-    // c32
-@rightPad
-    // c33
-(
-    // c34
-' '
-    // c35
-)
-    // c36
-repeat
-    // c37
-char[
-    // c38
-10
-    // c39
-]
-    // c40
-repeatCount
-    // c41
-,
-    // c42
-@tag(
-    // c43
-255
-    // c44
-)
-    // c45
-float64
-    // c46
-msg_type
-    // c47
-@calculatedFrom(
-    // c48
-""packet""
-    // c49
-)
-    // c50
-,
-    // c51
-}
-    // c52
-")).
-Eval vm_compute in ("<<<M230>>>" ++ check (runes_of_ascii "packet rootA{	match
-zchar as
-    // " ++ [128512]%N ++ runes_of_ascii " emoji
-    int {
-    [ ""it's""
-, ""1""]
-    :// c
-tag ,
-    } , char Packet @lengthOf( body ) , metadata @lengthOf( packetx ) ,@calculatedFrom( """ ++ [128512]%N ++ runes_of_ascii """	)match
-    repeatCount as f32a { """ ++ [28040; 24687]%N ++ runes_of_ascii """
-    :chars ,
-    }
-    ,@lengthOf(string_ )char[ 0
-    //
-    ] len @calculatedFrom(
-""abc"" )
-,
-    // `tick` ""quote"" 'q'
-    u8 uint8x@lengthOf( roots)  `say ""hi""`
-, int @calculatedFrom( ""a\""b"") ,match
-msg_type as i8i8 {// c
-""\" ++ [233]%N ++ runes_of_ascii """
-// " ++ [27880; 37322]%N ++ runes_of_ascii "
-// packet A { u8 x, }
-: Header , 1 : zchar,
-    [ ""\n""	]
-:	string_
-""\n"" :i8i8 0123456789 : Logon
-    [ 00 , 007 ,""1"" ,
-    //	t
-    ""it's""
-    , ""// no comment""
-    ,
-    0
-, ""a\\"" ,// packet A { u8 x, }
-007 ]
-    :BodyLength}
-, match rootA as // c
-chars  {
-7
-:
-    // @lengthOf(
-    Header }
-, A Foo `tab	here` ,
-}
-")).
-Eval vm_compute in ("<<<M192>>>" ++ check (runes_of_ascii "// trailing space 
-options { f32a=
-false;	stringy=	true
-;
-u=  ""\" ++ [233]%N ++ runes_of_ascii """  ;
-    stringy = false;
-} packet options1 // " ++ [27880; 37322]%N ++ runes_of_ascii "
-{
-} MetaData
-packetx { f32 uint8x  ,  } root packet zchar {
-@tag( 4294967296
-) @lengthOf(a1
-)
-i8
-_x
-`it's` ,//x
-char[]	o , body
-    ,
-zchar[ 65535] msg_type
-`crlf
-line` , repeat
-    BodyLength{ repeat char[ 65535
-    ] stringy,
-},
-@calculatedFrom( """ ++ [128512]%N ++ runes_of_ascii """
-) @tag( 10
-    // a // b
-    ) repeat f32
-lengthOf`line1
-line2` , repeat  u {
-    uint32 Z9_, //
-repeat body
-`
-` , }  , @tag( 4294967296
-) i64_ @lengthOf( tag
-    // packet A { u8 x, }
-    ), @lengthOf(//	t
-float) @lengthOf(
-    // " ++ [128512]%N ++ runes_of_ascii " emoji
-    packetx	) @calculatedFrom( """ ++ [128512]%N ++ runes_of_ascii """
-)	repeat x_y_z u  ,@tag( 65535 )u8
-A	,} //")).
-Eval vm_compute in ("<<<M227>>>" ++ check (runes_of_ascii "packet	crc
-    { @lengthOf(Header )	repeat roots
-    // @lengthOf(
-    `a\` ,
-@lengthOf( tag ) match x as string_{ [ ""a\\"" , ""packet""
-] : Header""// no comment""
-    /// triple
-    :
-Logon , 7:
-falsey ,7  : metadata [ 7  , 00] :
-    // `tick` ""quote"" 'q'
-    repeatCount 3 : u ,
-},
-    //	t
-    @lengthOf( u128
-//
-// " ++ [27880; 37322]%N ++ runes_of_ascii "
-) @rightPad
-(
-'\x00' // c
-)
-char[] int ,int16 Packet @lengthOf(  string_
-    ) , trueish{ repeat
-crc {zchar
-calculatedFrom , } ,
-} ,
-// @lengthOf(
-//x
-@rightPad
-( ) repeat
-    _x pack // " ++ [27880; 37322]%N ++ runes_of_ascii "
-, @lengthOf(
-// c
-// trailing space 
-chars)repeat
-    string_ {repeat
-    uint8x`// not a comment`,}
-, }")).
-Eval vm_compute in ("<<<M1570>>>" ++ check (runes_of_ascii "
-options{ 
-StringPrefixLenType
-
-    =
-u8; ArrayPrefixLenType =
-
-    u8
-;	FixedStringPadFromLeft  =
-false 
-;
-FixedStringPadChar 
-=
-' ' 
-;
-} packet
-	Ack
-{
-	char[]	tag7
-,	}
-
-packet	Reject
-	{InSym61  {repeat
-    Ack,
-
-    zchar[
-
-    4 ]f1	,
-},} packet
-
-Logout
-	{
-
-char[4 
-]clOrdID
-	,
-} 
-root
-	packet
-Cancel { 
-@leftPad	(
-' ' ) char[
-	10  ]price , u8
-	x
-
-, u32
-venue@lengthOf( 
-Body )
-,
-    match x
-    as
-	Body  {
-[92	,	175
-
-    ]
-:  Logout
-	,
-    26
-
-    :
-Reject  , 144 
-: Ack
-,  }
-
+    )
 , 
-u16
-
-    count	@calculatedFrom(	""CRC32"" )
-
-    ,  }
-
-")).
-Eval vm_compute in ("<<<M1655>>>" ++ check (runes_of_ascii "options
-
-    { 
-LittleEndian
-
-    =true
-    ; StringPrefixLenType  =	u64	;
-ArrayPrefixLenType=
-    u16 ;FixedStringPadFromLeft 
-=
-false
-;FixedStringPadChar
-=	' ' 
-; } packet 
-Logon
-
-{ zchar[
-
-5
-
-    ]
-Side2 ,
-    }
-
-    root
-    packet
-	Logout { repeat
-
-i64 
-Tail 
-,
-	Logon 
-,
-
-repeat
-
-i16 OrderId
-    ,
-	char[]
-venue
-,
-    uint64
-
-x ,
-repeat i16
-
-    count
-
-    , u8
-	Flags	,
-
-    match 
-Flags	as
-    Body
-
-    { 25 :
-    Logon ,
-} ,
-u16
-    Qty@calculatedFrom(	""CR\
-C32""
-    ) ,
-
-} ")).
-Eval vm_compute in ("<<<M264>>>" ++ check (runes_of_ascii "options  {
-    float
-=
-    char[]
-} // packet A { u8 x, }
-root packet
-    Logon
-    { @tag( 1 ) // a // b
-@calculatedFrom( ""packet""
-// a // b
-// " ++ [128512]%N ++ runes_of_ascii " emoji
-)zchar[ 3 ]
-// c
-//x
-Z9_ ,@lengthOf( charz )
-@calculatedFrom( ""1""
-)match
-roots
-as int
-    { ""a	b""
-:MetaDataX , }
-    ,@calculatedFrom( ""a\""b""	)
-    match
-    asx as lengthOf { """ ++ [128512]%N ++ runes_of_ascii """
-    : _x,
-[ 255 ] : BodyLength
-    ,3 :
-    u8x , 0123456789:T} ,
-    len@lengthOf(leftPad )`u8 x,` , } // @lengthOf(")).
-Eval vm_compute in ("<<<M349>>>" ++ check (runes_of_ascii "root
-packet body {
-    @lengthOf(
-int
-// @lengthOf(
-//x
-)string tag
-    ,	Pad BodyLength , Z9_ {
-    /// triple
-    u `` , zchar[ 7] u ,
-},uint64 calculatedFrom, }packet
-msg_type {match f32a// " ++ [128512]%N ++ runes_of_ascii " emoji
-as pack
-    { ""// no comment"" : trueish
-, }
-    // trailing space 
-    , @calculatedFrom( // @lengthOf(
-""abc""
+@lengthOf( a1
 )
-    @leftPad (
-' ') @calculatedFrom( """" //x
-) // c
-matchKey T ,// `tick` ""quote"" 'q'
+	repeat
+
+    x
+    body
+
+,
+    }	MetaData	string_ {float64 f32a
+
+    ,
+zchar[
+255
+
+    ] T,
+	u32 trueish
+
+    ,
+    BodyLength
+    roots `two words`,
+
 }
+	// " ++ [128512]%N ++ runes_of_ascii " emoji
+    //	t
+  packet
+    stringy
+{
+    zchar[ 255
+] 
+Foo
+,  }
+MetaData
+
+leftPad
+{ 
+}	//
+  options
+
+{
+
+    x  //x
+    = true	;
+    zchar  = """"
+
+    } //
 ")).
-Eval vm_compute in ("<<<M1661>>>" ++ check (runes_of_ascii "// top
-root packet _x {
-    // c3
-    match Foo as Z9_ {
-        // c8
-        ""a	b"" : Pad,
-        // c12
-    },// c14
-    repeat x `line1
-        line2`,// c18
-    @rightPad(' ')
-    // c22
+Eval vm_compute in ("<<<M1809>>>" ++ check (runes_of_ascii "root packet i64_ {
+    trueish,
+    @calculatedFrom(""abc"")
+    @tag(7)
+    // c
+    int16 asx,
     @calculatedFrom(""a\\"")
-    // c25
-    metadata MetaDataX,// c28
-    @tag(0)
-    // c31
-    Logon int ``,// c35
-}// c36
+    float32 crc @lengthOf(Foo),
+    @tag(42)
+    zchar[7] asx @lengthOf(calculatedFrom) `// not a comment`,//
+    repeat zchar[1] As,
+    chars `two words`,
+    @calculatedFrom(""1"")
+    @tag(0123456789)
+    @leftPad('0')
+    repeat char[] BodyLength `tab	here`,
+}
+
+MetaData u128 {
+    u16 i64_,
+    float32 asx `two words`,//
+    i64 leftPad,
+    zchar[00] _x,//
+}
+
+MetaData chars {
+    Foo crc `say ""hi""`,
+    uint8 u `two words`,// " ++ [128512]%N ++ runes_of_ascii " emoji
+    f32 pack `crlf
+    line`,
+    string _x `" ++ [233]%N ++ runes_of_ascii "`,
+}
+
+packet x_y_z {
+}
 
 options {
-    // c38
-    T = '\x00'// c41
-}// c42")).
+    calculatedFrom = ""CRC32""
+    crc = uint16;
+    u = false
+    Foo = char
+}// " ++ [128512]%N ++ runes_of_ascii " emoji")).
+Eval vm_compute in ("<<<M216>>>" ++ check (runes_of_ascii "// " ++ [27880; 37322]%N ++ runes_of_ascii "
+packet chars {match
+charz
+as
+    // trailing space 
+    A // trailing space 
+{0123456789: rootA ,
+    42
+:
+    x , ""1"" :Logon , 7 :u , ""\n"" : packetx , }, char[]MetaDataX
+@calculatedFrom(""""
+) `" ++ [233]%N ++ runes_of_ascii "`
+    // trailing space 
+    ,	@leftPad( ' ' )  char[] Foo,
+    crc , f64 string_ , // " ++ [128512]%N ++ runes_of_ascii " emoji
+char[]
+packetx,i64 u8x@lengthOf(  stringy ) `// not a comment`, repeat zchar {
+repeat
+A _x , lengthOf	@lengthOf( u8x
+) ,	match A as matchKey { 3 :Z9_ , ""// no comment"": As 00 //x
+:
+i64_ ,
+// a // b
+// " ++ [128512]%N ++ runes_of_ascii " emoji
+""a\\""  :i64_ , [ ""`tick`""/// triple
+] : T ,
+    }
+,
+// a // b
+// packet A { u8 x, }
+uint32 T
+`" ++ [28040; 24687; 31867; 22411]%N ++ runes_of_ascii "`
+    , }
+    , uint64
+    /// triple
+    charz
+, }")).
+Eval vm_compute in ("<<<M1425>>>" ++ check (runes_of_ascii "root packet asx {
+    tag body `u8 x,`,
+}
+
+packet string_ {
+    @lengthOf(len)
+    repeat zchar[42] u8x,
+    zchar[0] asx,
+}
+
+packet int {
+    repeat crc {
+        zchar float,
+        match i8i8 as rootA {
+            255 : lengthOf,
+            1 : lengthOf,
+            3 : roots,
+            3 : uint8x,
+            0 : As,
+            ""`tick`"" : repeatCount,
+        },
+        repeat char[] falsey,
+        u64 lengthOf,
+    },
+    @lengthOf(crc)
+    lengthOf i64_,
+    leftPad `crlf
+    line`,
+}
+
+root packet zchar {
+    f32 _x @calculatedFrom(""a\\""),
+}
+
+MetaData chars {
+    //
+}")).
+Eval vm_compute in ("<<<M65>>>" ++ check (runes_of_ascii "packet leftPad {
+match A as x {""`tick`""
+    : MetaDataX //
+, [""it's""
+,""\n"" ,
+""" ++ [28040; 24687]%N ++ runes_of_ascii """ ] :
+string_ , 0123456789 : o ,
+[
+""{,}"", ""x y"" ]
+:uint8x	} , char[3	] msg_type// " ++ [128512]%N ++ runes_of_ascii " emoji
+@lengthOf( u
+//	t
+// " ++ [27880; 37322]%N ++ runes_of_ascii "
+)`two words` ,
+    // c
+    repeat
+    int
+// packet A { u8 x, }
+// @lengthOf(
+Foo ,
+@rightPad
+(
+    )
+@rightPad
+( ' ' )
+    Foo charz`{ , }`, }
+MetaData A {
+zchar[
+0 ]A `{ , }`
+    , float32 a1
+    //
+    ,
+    char[]  pack , /// triple
+string body `" ++ [233]%N ++ runes_of_ascii "` , string chars `doc` , int _x`two words`
+,} options { Z9_ =
+    uint16 ; }")).
+Eval vm_compute in ("<<<M1466>>>" ++ check (runes_of_ascii "
+root
+packet
+body {
+    @lengthOf( int  
+      // @lengthOf(
+		//x
+    )string tag
+	,
+
+Pad BodyLength 
+, Z9_ { 
+    /// triple
+	u `` 
+,
+
+zchar[7  ] 
+u 
+, 
+}
+
+, uint64 calculatedFrom
+
+, } 
+packet 
+msg_type
+{ match
+
+    f32a// " ++ [128512]%N ++ runes_of_ascii " emoji
+      as
+
+    pack	{
+
+    ""// no comment"" :
+trueish ,
+
+    }
+// trailing space 
+    ,  @calculatedFrom(// @lengthOf(
+
+  ""abc""	) @leftPad (
+' '
+	) @calculatedFrom(
+	"""" //x
+		)// c
+	matchKey
+    T,// `tick` ""quote"" 'q'
+}
+")).
+Eval vm_compute in ("<<<M1672>>>" ++ check (runes_of_ascii "// top
+  MetaData
+        // c0
+
+leftPad 
+  // c1
+    {
+// c2
+
+chars  
+  // c3
+MetaDataX 
+// c4
+
+,  
+  // c5
+  } 
+	    // c6
+
+	packet
+    // c7
+
+  repeatCount 
+	    // c8
+	{
+
+// c9
+
+char[ 
+    // c10
+	255 
+
+// c11
+
+] 
+    // c12
+uint8x
+    // c13
+
+	`" ++ [233]%N ++ runes_of_ascii "`
+    // c14
+
+	,
+// c15
+    }
+    // c16
+    MetaData 
+
+    // c17
+  pack
+	// c18
+      {
+	    // c19
+    	As
+    // c20
+	Foo 
+      // c21
+    ,
+
+// c22
+}  
+      // c23")).
+Eval vm_compute in ("<<<M1335>>>" ++ check (runes_of_ascii "options {
+    LittleEndian = false;
+    StringPrefixLenType = u8;
+    ArrayPrefixLenType = u64;
+    FixedStringPadFromLeft = false;
+    FixedStringPadChar = ' ';
+}
+packet Reject {
+    repeat char[4] seqNo,
+    string Px,
+}
+root packet Trade {
+    @rightPad('0') char[2] msgKind,
+    repeat f64 price,
+    InAcct79 {
+        repeat Reject,
+        zchar[7] OrderId,
+    },
+    Reject,
+}
+")).
+Eval vm_compute in ("<<<M1381>>>" ++ check (runes_of_ascii "options  { LittleEndian
+
+= 
+true
+	;
+
+    }
+    packet
+
+Logon	{
+u8
+
+x  , 
+}packet  Logout
+    {
+    u16
+
+    reason	,
+
+    }root
+
+    packet
+
+Frame
+{ u8 
+Kind	, u8 Kind2
+
+    ,match Kind
+as Body {
+
+    1 :
+    Logon ,[
+2
+
+,
+3
+
+    ,
+	4]
+	: 
+Logout	,100
+    :
+
+Logon
+    ,
+
+    }  ,  match  Kind2
+as
+
+    Trailer{ 
+0: Logout  ,
+}	,	}
+")).
 Eval vm_compute in ("<<<M109>>>" ++ check (runes_of_ascii "MetaData Header{ } packet crc {	match zchar as leftPad // `tick` ""quote"" 'q'
 { 7 : As 0 : Packet , [
 00 // " ++ [128512]%N ++ runes_of_ascii " emoji
@@ -760,61 +649,54 @@ line` , // " ++ [27880; 37322]%N ++ runes_of_ascii "
 u64 packetx,
 @calculatedFrom(  ""1"" ) repeat u16 calculatedFrom, }
 ")).
-Eval vm_compute in ("<<<M35>>>" ++ check (runes_of_ascii "  packet Header
-{ @calculatedFrom( // a // b
-""a	b"" )
+Eval vm_compute in ("<<<M232>>>" ++ check (runes_of_ascii "options {  A = i16
+;
+    }
+    /// triple
+    root
+packet
+    rootA{
+    @tag( 7)int16 pack,Logon @calculatedFrom( ""a\""b"" ) `{ , }`
+    , @rightPad ( '\x00' )
+//
+//
 char[
-    255] falsey `tab	here`,int8
-    // " ++ [27880; 37322]%N ++ runes_of_ascii "
-    u
-`doc` , float32 lengthOf
-    @calculatedFrom(
-""a	b""  )
-    // a // b
-    , @rightPad (
-' '  ) @tag( 3
-) float64 asx
-    ,
-int8 metadata @lengthOf(zchar )// a // b
-,Pad f32a , }")).
-Eval vm_compute in ("<<<M1379>>>" ++ check (runes_of_ascii "options {
-    LittleEndian = true;
-}
-packet Logon {
-    u8 x,
-    string user,
-}
-packet Logout {
-    u16 reason,
-}
-packet Empty {
-}
-root packet Frame {
-    u16 MsgType,
-    u8 BodyLen @lengthOf(Body),
-    u8 flags,
-    Logon Body,
-    u32 trailer,
-}
-")).
-Eval vm_compute in ("<<<M183>>>" ++ check (runes_of_ascii "root
-packet tag {
-@calculatedFrom(
-""{,}""
+7
     // `tick` ""quote"" 'q'
-    )
-@tag(
-//x
-// " ++ [27880; 37322]%N ++ runes_of_ascii "
-42
-    )
-    i64_ @lengthOf( calculatedFrom ) , zchar[// " ++ [128512]%N ++ runes_of_ascii " emoji
-3 // @lengthOf(
-] int  , } root// c
-packet Foo { }
-// @lengthOf(
+    ]options1
+`tab	here`,@calculatedFrom(
+""" ++ [233]%N ++ runes_of_ascii "t" ++ [233]%N ++ runes_of_ascii """ )int @lengthOf(
+Packet
+) `crlf
+line`, }
 ")).
-Eval vm_compute in ("<<<M1547>>>" ++ check (runes_of_ascii "packet _x {
+Eval vm_compute in ("<<<M80>>>" ++ check (runes_of_ascii "packet
+    len { // trailing space 
+repeat zchar f32a `// not a comment` , @tag( 255 )repeat  Pad { x T
+, } , @calculatedFrom(
+""{,}"") repeat
+    // a // b
+    leftPad { u64 u8x `tab	here` ,o Packet
+    ,char[] chars , } , @tag( 3 )float64
+    i8i8 , }
+")).
+Eval vm_compute in ("<<<M351>>>" ++ check (runes_of_ascii "MetaData leftPad// packet A { u8 x, }
+{ string u128 `say ""hi""` //
+, // c
+A packetx
+    //	t
+    , char[
+//
+// packet A { u8 x, }
+42
+]
+leftPad
+    `tab	here` // trailing space 
+,i16 crc ,
+string uint8x // a // b
+,
+}")).
+Eval vm_compute in ("<<<M1916>>>" ++ check (runes_of_ascii "packet _x {
     repeat char[] matchKey,
     @leftPad()
     x_y_z T,
@@ -827,98 +709,19 @@ Eval vm_compute in ("<<<M1547>>>" ++ check (runes_of_ascii "packet _x {
 packet MetaDataX {
     float64 body,
 }")).
-Eval vm_compute in ("<<<M1301>>>" ++ check (runes_of_ascii "
-
-  packet A
-{u8 a
-
-    ,
-	} packet 
-B { u16
-
-    b , }root packet P
-
-    {u8 K
-    , match
-    K as M
-	{ [ 1
-,
-	2 ]: 
-A
-
-    ,
-
-3 :B
-    ,	7
-    : A,
-	}
-	,  }
-
-")).
-Eval vm_compute in ("<<<M250>>>" ++ check (runes_of_ascii "MetaData // a // b
-o {string Foo
-    , }
-MetaData  msg_type { Header len `" ++ [28040; 24687; 31867; 22411]%N ++ runes_of_ascii "`
-,
-    }
-options
-{ tag
-= '0' ;
-    o=
-""CRC32"" ; Logon = ""`tick`"" ;// a // b
-}")).
-Eval vm_compute in ("<<<M513>>>" ++ check (runes_of_ascii "packet uint8x
-{ match pack
-    as msg_type	{
-    0123456789 :	float
-}
-,
-} packet //	t
-a1
-    { } options {packetx
-    = '\x00'	; float32= ""a	b""  ; }
-")).
-Eval vm_compute in ("<<<M1793>>>" ++ check (runes_of_ascii "packet A {
-    u8 a,
-}
-
-packet B {
-    u16 b,
-}
-
-root packet P {
-    u8 K,
-    match K as M {
-        [1, 2] : A,
-        3 : B,
-        7 : A,
+Eval vm_compute in ("<<<M1512>>>" ++ check (runes_of_ascii "packet A {
+    match k as n {
+        [
+            ""a"", ""bb"", 007, ""d"", ""e"",
+            66, ""g"", ""h"", 9, ""j"",
+            ""k"", 12
+        ] : B,
+        2 : C,
     },
 }")).
-Eval vm_compute in ("<<<M467>>>" ++ check (runes_of_ascii "packet uint8x
+Eval vm_compute in ("<<<M421>>>" ++ check (runes_of_ascii "packet uint8x
 { match pack
-    as msg_type	{
-    0123456789 :	float
-}
-,
-} packet //	t
-{
-    a1 } options {packetx
-    = '\x00'	; u128= ""a	b""  ; }
-")).
-Eval vm_compute in ("<<<M515>>>" ++ check (runes_of_ascii "packet uint8x
-{ match pack
-    as msg_type	{
-    0123456789 :	float
-}
-,
-} packet //	t
-a1
-    { } options {packetx
-    = '\x00'	; u128 ""a	b""  ; }
-")).
-Eval vm_compute in ("<<<M398>>>" ++ check (runes_of_ascii "packet [
-{ match pack
-    as msg_type	{
+    as msg_type msg_type	{
     0123456789 :	float
 }
 ,
@@ -927,252 +730,270 @@ a1
     { } options {packetx
     = '\x00'	; u128= ""a	b""  ; }
 ")).
-Eval vm_compute in ("<<<M423>>>" ++ check (runes_of_ascii "packet uint8x
+Eval vm_compute in ("<<<M518>>>" ++ check (runes_of_ascii "packet uint8x
 { match pack
-    as ,	{
+    as msg_type	{
     0123456789 :	float
 }
 ,
 } packet //	t
 a1
     { } options {packetx
+    = '\x00'	; u128 true ""a	b""  ; }
+")).
+Eval vm_compute in ("<<<M546>>>" ++ check (runes_of_ascii "packet uint8x
+{ match pack
+    as msg_type	{
+    0123456789 :	float
+}
+,
+} packet //	t
+a1
+    { } options {packetx
+    = '\x00'	; @ u128= ""a	b""  ; }
+")).
+Eval vm_compute in ("<<<M448>>>" ++ check (runes_of_ascii "packet uint8x
+{ match pack
+    as msg_type	{
+    0123456789 :	float
+=
+,
+} packet //	t
+a1
+    { } options {packetx
     = '\x00'	; u128= ""a	b""  ; }
 ")).
-Eval vm_compute in ("<<<M1855>>>" ++ check (runes_of_ascii "
-packet
-	uint8x  {
-match
-pack 
-as
-	msg_type
-{ 0123456789: float
-	}, }
-packet 	 //	t
+Eval vm_compute in ("<<<M495>>>" ++ check (runes_of_ascii "packet uint8x
+{ match pack
+    as msg_type	{
+    0123456789 :	float
+}
+,
+} packet //	t
 a1
-{	}options
-{
-	packetx	= 
-'\x00'
-	;
-u128 
-=	""a	b""  }
+    { } options {packetx
+     '\x00'	; u128= ""a	b""  ; }
 ")).
-Eval vm_compute in ("<<<M1783>>>" ++ check (runes_of_ascii "
-
-  packet A 
-{match
-
-k	as n {	[ 1  ,
-22	,
-007, 
-4 
-,5 ,	66	,
-
-7  , 
-8  , 9 ,
-
-10,
-
-    11 ,  12
-    ]:
-B
-
-    2 :C}  ,
-
-    }
-")).
-Eval vm_compute in ("<<<M259>>>" ++ check (runes_of_ascii "  MetaData repeatCount // c
-{char[
-42 // " ++ [27880; 37322]%N ++ runes_of_ascii "
-]
-    // " ++ [128512]%N ++ runes_of_ascii " emoji
-    MetaDataX ,
-    // @lengthOf(
-    zchar[
-// " ++ [27880; 37322]%N ++ runes_of_ascii "
-//x
-0] asx , }
-")).
-Eval vm_compute in ("<<<M1468>>>" ++ check (runes_of_ascii "MetaData msg_type {
-}
-
-root packet A {
-    repeat i32 leftPad `it's`,
-    //x
-}
-
-root packet a1 {
-    char[255] falsey,
+Eval vm_compute in ("<<<M668>>>" ++ check (runes_of_ascii "// @len'1'gthOf(
+packet i8i8 { u128 o , }
+options { MetaDataX = true;
+    BodyLength =""packet"" x_y_z= 007
+crc //x
+= ""abc"" ;
+    msg_type =
+i16 }")).
+Eval vm_compute in ("<<<M1917>>>" ++ check (runes_of_ascii "packet A {
+    match k as n {
+        [
+            ""a"", ""bb"", 007, ""d"", ""e"",
+            66, ""g"", ""h"", 9
+        ] : B,
+        2 : C,
+    },
 }")).
-Eval vm_compute in ("<<<M1162>>>" ++ check (runes_of_ascii "MetaData leftPad { chars MetaDataX , } packet repeatCount {
-// c
-char[ 255 ] uint8x `" ++ [233]%N ++ runes_of_ascii "` , } MetaData pack { As Foo , }")).
-Eval vm_compute in ("<<<M102>>>" ++ check (runes_of_ascii "packet
-    // " ++ [128512]%N ++ runes_of_ascii " emoji
-    body {match Logon  as _x
-    {
-4294967296
-// a // b
-//x
-:
-_x , """ ++ [28040; 24687]%N ++ runes_of_ascii """
-    : u128
-    ,} , }
-")).
-Eval vm_compute in ("<<<M1484>>>" ++ check (runes_of_ascii "packet
+Eval vm_compute in ("<<<M688>>>" ++ check (runes_of_ascii "// @lengthOf(
+packet i8i8 { u128 o , }
+options { MetaDataX = true;
+    BodyLength =""packet"" x_y_z= 007
+crc //x
+= ""abc"" ;
+    msg_type =
+i16")).
+Eval vm_compute in ("<<<M659>>>" ++ check (runes_of_ascii "// @lengthOf(
+packet i8i8 { u128 o , }
+options { MetaDataX = true;
+    " ++ [21517; 23383]%N ++ runes_of_ascii " =""packet"" x_y_z= 007
+crc //x
+= ""abc"" ;
+    msg_type =
+i16 }")).
+Eval vm_compute in ("<<<M1701>>>" ++ check (runes_of_ascii "packet A {
+    u16 len @lengthOf(body) `tab
+        	x`,
+    u32 crc @calculatedFrom(""CRC32"") `tab
+        	x`,
+    string body,
+}")).
+Eval vm_compute in ("<<<M173>>>" ++ check (runes_of_ascii "
+options
+    { zchar
+    = 10 ; matchKey = char[ /// triple
+1
+    ]
+u	= ""a\""b"" ;
+    x_y_z =
+    42 ; } MetaData Logon{ }")).
+Eval vm_compute in ("<<<M1157>>>" ++ check (runes_of_ascii "MetaData leftPad { chars MetaDataX , } packet // c
+repeatCount { char[ 255 ] uint8x `" ++ [233]%N ++ runes_of_ascii "` , } MetaData pack { As Foo , }")).
+Eval vm_compute in ("<<<M1654>>>" ++ check (runes_of_ascii "
 
-    A
-{ match
-	k as n  {	[ ""a""
-    ,
-""bb""
-    ,
-	""c c""
+  packet
+A {
+
+    match k 
+as n  { [ ""a""
+,22 
+, ""c c""	,  4
 
 ,
+    ""e""
+    ,
+66
+,  ""g""
+]:
 
-""d""
-]
-
-    : B
-
+B,
     2
 
 :
-	C 
-} , } ")).
-Eval vm_compute in ("<<<M931>>>" ++ check (runes_of_ascii "packet A {
-    u16 len @lengthOf(body) `
-`,
-    u32 crc @calculatedFrom(""CRC32"") `
-`,
+C
+} ,} ")).
+Eval vm_compute in ("<<<M943>>>" ++ check (runes_of_ascii "packet A {
+    u16 len @lengthOf(body) `a
+
+b`,
+    u32 crc @calculatedFrom(""CRC32"") `a
+
+b`,
     string body,
 }")).
-Eval vm_compute in ("<<<M1248>>>" ++ check (runes_of_ascii "  options
-{LittleEndian 
-= true 
-; }
+Eval vm_compute in ("<<<M535>>>" ++ check (runes_of_ascii "packet uint8x
+{ match pack
+    as msg_type	{
+    0123456789 :	float
+}
+,
+} packet //	t
+a1
+    { } opti")).
+Eval vm_compute in ("<<<M484>>>" ++ check (runes_of_ascii "packet uint8x
+{ match pack
+    as msg_type	{
+    0123456789 :	float
+}
+,
+} packet //	t
+a1
+    { }")).
+Eval vm_compute in ("<<<M1436>>>" ++ check (runes_of_ascii "
 
-    root  packet
+  options
+    {  Z9_
+    =
+	'\x00' }packet trueish {// " ++ [128512]%N ++ runes_of_ascii " emoji
+	u16
 
-P {
-
-    repeat
-char
-cs
-
-, u8
-	x, }
-
+    calculatedFrom, }
 ")).
-Eval vm_compute in ("<<<M199>>>" ++ check (runes_of_ascii "packet falsey { string a1 @lengthOf( packetx ) , }
-packet	int { Header	@lengthOf( stringy)
-, }")).
-Eval vm_compute in ("<<<M892>>>" ++ check (runes_of_ascii "packet A {
-  match k as n {
-    [1, 22, 007, 4, 5, 66, 7, 8, 9, 10, 11] : B
-    2 : C
-  },
-}")).
-Eval vm_compute in ("<<<M873>>>" ++ check (runes_of_ascii "packet A {
-  match k as n {
-    [1, 22, ""c c"", 4, 5, ""f"", 7, 8, ""i""] : B,
-    2 : C
-  },
-}")).
-Eval vm_compute in ("<<<M617>>>" ++ check (runes_of_ascii "
+Eval vm_compute in ("<<<M642>>>" ++ check (runes_of_ascii "
 packet
     asx {match u128 as lengthOf
+{'1'
+//	t
+// `tick` ""quote"" 'q'
+255 : x ,
+    } ,	}")).
+Eval vm_compute in ("<<<M559>>>" ++ check (runes_of_ascii "
+packet
+    { asx match u128 as lengthOf
 {
 //	t
 // `tick` ""quote"" 'q'
 255 : x ,
-    } 	}")).
-Eval vm_compute in ("<<<M1275>>>" ++ check (runes_of_ascii "
-
-  options{ FixedStringPadFromLeft
-= 
-true 
-; }root 
-packet  P {char[
-    4 ]
-z,
-	}")).
-Eval vm_compute in ("<<<M830>>>" ++ check (runes_of_ascii "packet A {
+    } ,	}")).
+Eval vm_compute in ("<<<M1474>>>" ++ check (runes_of_ascii "options {
+    charz = ""1""
+    _x = """ ++ [128512]%N ++ runes_of_ascii """
+    u = string;
+    stringy = """ ++ [28040; 24687]%N ++ runes_of_ascii """
+}
+// @lengthOf(")).
+Eval vm_compute in ("<<<M829>>>" ++ check (runes_of_ascii "packet A {
   match k as n {
-    [1, ""bb"", 007, ""d"", 5, ""f""] : B,
+    [""a"", ""bb"", ""c c"", ""d"", ""e"", ""f""] : B
     2 : C
   },
 }")).
-Eval vm_compute in ("<<<M611>>>" ++ check (runes_of_ascii "
-packet
-    asx {match u128 as lengthOf
-{
-//	t
-// `tick` ""quote"" 'q'
-255 : x")).
-Eval vm_compute in ("<<<M890>>>" ++ check (runes_of_ascii "packet A { Inner { match k as n { [1,22,007,4,5,66,7,8,9,10] : B, }, }, }")).
-Eval vm_compute in ("<<<M1283>>>" ++ check (runes_of_ascii "root packet P {
-    u16 a,
-    u32 Sum @calculatedFrom(""CR\
-C32""),
+Eval vm_compute in ("<<<M469>>>" ++ check (runes_of_ascii "packet uint8x
+{ match pack
+    as msg_type	{
+    0123456789 :	float
+}
+,
+} packet")).
+Eval vm_compute in ("<<<M1252>>>" ++ check (runes_of_ascii "packet Inner {
+    u8 a,
+}
+root packet P {
+    repeat Inner items,
+    u8 x,
 }
 ")).
-Eval vm_compute in ("<<<M838>>>" ++ check (runes_of_ascii "packet A { Inner { match k as n { [1,22,007,4,5,66] : B, }, }, }")).
-Eval vm_compute in ("<<<M751>>>" ++ check (runes_of_ascii "options @calculatedFrom( repeat } [ @tag( uint32 char[] ] :")).
-Eval vm_compute in ("<<<M1556>>>" ++ check (runes_of_ascii "MetaData M {
-    u8 x `a
-    b`,
-    T t `a
-    b`,
+Eval vm_compute in ("<<<M827>>>" ++ check (runes_of_ascii "packet A {
+  match k as n {
+    [1, 22, 007, 4, 5, 66] : B
+    2 : C
+  },
 }")).
-Eval vm_compute in ("<<<M1207>>>" ++ check (runes_of_ascii "packet body { i32 f32a // c
-`{ , }` , } options { }")).
-Eval vm_compute in ("<<<M1100>>>" ++ check (runes_of_ascii "// top
-MetaData // c0
-tag // c1
-{ // c2
-} // c3
-")).
-Eval vm_compute in ("<<<M47>>>" ++ check (runes_of_ascii "MetaData	lengthOf
-{
-Header o `doc`
-    ,}
-")).
-Eval vm_compute in ("<<<M325>>>" ++ check (runes_of_ascii "packet charz { } // packet A { u8 x, }")).
-Eval vm_compute in ("<<<M1628>>>" ++ check (runes_of_ascii "  packet
-
-    A{
+Eval vm_compute in ("<<<M42>>>" ++ check (runes_of_ascii "
+packet roots
+    { len leftPad `// not a comment`	,} packet packetx{}")).
+Eval vm_compute in ("<<<M1643>>>" ++ check (runes_of_ascii "packet A {
+    match k as n {
+        1 : B,
+        // d
+    },
+}")).
+Eval vm_compute in ("<<<M204>>>" ++ check (runes_of_ascii "  options {// " ++ [128512]%N ++ runes_of_ascii " emoji
+Packet =// `tick` ""quote"" 'q'
+char[3 ]}")).
+Eval vm_compute in ("<<<M1097>>>" ++ check (runes_of_ascii "packet A {
+    match k as n {
+        1 : B,// c
+    },
+}")).
+Eval vm_compute in ("<<<M963>>>" ++ check (runes_of_ascii "MetaData M {
+    u8 x `tab
+	x`,
+    T t `tab
+	x`,
+}")).
+Eval vm_compute in ("<<<M375>>>" ++ check (runes_of_ascii "options {Foo = '0'	;	Pad = '0';	crc ='0' ; //	t
+}")).
+Eval vm_compute in ("<<<M1095>>>" ++ check (runes_of_ascii "packet A { char[ // a
+ 3 // b
+ ] // c
+ x, }")).
+Eval vm_compute in ("<<<M971>>>" ++ check (runes_of_ascii "options {
+    a = ""\
+"";
+    b = ""\
+""
+}")).
+Eval vm_compute in ("<<<M132>>>" ++ check (runes_of_ascii "options
+    { Foo = 0123456789
+; }")).
+Eval vm_compute in ("<<<M766>>>" ++ check (runes_of_ascii "Dr1UAAa-*U|u3S?xE-Vr&9^'H>gI<.E")).
+Eval vm_compute in ("<<<M759>>>" ++ check (runes_of_ascii "= u64 ; u32 MetaData packet {")).
+Eval vm_compute in ("<<<M1080>>>" ++ check (runes_of_ascii "options { a = 1 // a
+ ; }")).
+Eval vm_compute in ("<<<M1944>>>" ++ check (runes_of_ascii "// a
+// b
+packet A {
+}")).
+Eval vm_compute in ("<<<M1062>>>" ++ check (runes_of_ascii "// c x
+packet A {
+}")).
+Eval vm_compute in ("<<<M1016>>>" ++ check (runes_of_ascii "packet A {
 }
-
-    // c" ++ [65279]%N ++ runes_of_ascii "
-")).
-Eval vm_compute in ("<<<M36>>>" ++ check (runes_of_ascii "// c
-packet asx  {} /// triple")).
-Eval vm_compute in ("<<<M83>>>" ++ check (runes_of_ascii "
-options{ options1 =	7 ;
-}
-")).
-Eval vm_compute in ("<<<M1913>>>" ++ check (runes_of_ascii "
-
-  // trailing space 
-")).
-Eval vm_compute in ("<<<M1479>>>" ++ check (runes_of_ascii "// c" ++ [8192]%N ++ runes_of_ascii "
-    packet A {}")).
-Eval vm_compute in ("<<<M1956>>>" ++ check (runes_of_ascii "
-
-  packet 
-o
-	{}
+// c" ++ [8233]%N)).
+Eval vm_compute in ("<<<M989>>>" ++ check (runes_of_ascii "packet A {
+}// c" ++ [133]%N)).
+Eval vm_compute in ("<<<M566>>>" ++ check (runes_of_ascii "
+packet
+    asx")).
+Eval vm_compute in ("<<<M561>>>" ++ check (runes_of_ascii "
+packet")).
+Eval vm_compute in ("<<<M111>>>" ++ check (runes_of_ascii "
 
 ")).
-Eval vm_compute in ("<<<M1039>>>" ++ check (runes_of_ascii "packet A {
-}// c 	")).
-Eval vm_compute in ("<<<M1044>>>" ++ check (runes_of_ascii "packet A {
-}// c" ++ [8203]%N)).
-Eval vm_compute in ("<<<M1749>>>" ++ check (runes_of_ascii "
-/// triple
- 
-")).
-Eval vm_compute in ("<<<M1060>>>" ++ check (runes_of_ascii "// c x")).
-Eval vm_compute in ("<<<M769>>>" ++ check ([12]%N ++ runes_of_ascii "7" ++ [30]%N)).
